@@ -81,4 +81,116 @@ theorem session_lost_forgets (e : Engine) : (e.applySessionPresent false).1.inQo
   simp only [Bool.not_false, ↓reduceIte]
   repeat (first | split | exact hre)
 
+/-! ### order of the answers, for any run of inbound packets -/
+
+/-- the answer an inbound packet is owed -/
+def inboundAnswer : Packet → Option Packet
+  | .publish p => if p.qos = 1 then some (.puback { packetId := p.packetId })
+                  else if p.qos = 2 then some (.pubrec { packetId := p.packetId }) else none
+  | .pubrel a => some (.pubcomp { packetId := a.packetId })
+  | _ => none
+
+def handleInbound (e : Engine) : Packet → Engine × Res
+  | .publish p => e.handlePublish p
+  | .pubrel a => e.handlePubrel a
+  | _ => (e, .ok)
+
+/-- one inbound packet that is owed an answer: the answer is a new operation at the back of the high-priority queue, and
+    nothing else about the queue, the older operations or the connection state changes -/
+theorem answer_joins_the_back (e : Engine) (p : Packet) (a : Packet) (hs : stateBlocksAcks e.state = false)
+    (ha : inboundAnswer p = some a) :
+    let e' := (handleInbound e p).1
+    e'.highQ = e.highQ ++ [e.nextOpId] ∧ e'.nextOpId = e.nextOpId + 1 ∧ e'.state = e.state ∧
+    (e'.op? e.nextOpId).map (·.packet) = some a ∧ (∀ id, id ≠ e.nextOpId → e'.op? id = e.op? id) := by
+  cases p with
+  | publish pb =>
+    simp only [inboundAnswer] at ha
+    by_cases h1 : pb.qos = 1
+    · simp only [h1, ↓reduceIte, Option.some.injEq] at ha
+      subst ha
+      have h0 : ¬ (pb.qos = 0) := by omega
+      simp only [handleInbound, Engine.handlePublish, hs, Bool.false_eq_true, ↓reduceIte, h0, h1, Engine.createOp, Engine.enqueue,
+        Engine.op?, lookup_mapInsert_self, Option.isNone_some, (by decide : ¬ ((1 : Nat) = 0))]
+      refine ⟨trivial, trivial, trivial, rfl, fun id hid => lookup_mapInsert_ne _ _ _ _ hid⟩
+    · by_cases h2 : pb.qos = 2
+      · have h20 : ¬ ((2 : Nat) = 1) := by decide
+        simp only [h2, h20, ↓reduceIte, Option.some.injEq] at ha
+        subst ha
+        have h0 : ¬ (pb.qos = 0) := by omega
+        by_cases hin : e.inQos2.contains pb.packetId = true
+        · simp only [handleInbound, Engine.handlePublish, hs, Bool.false_eq_true, ↓reduceIte, h0, h1, h2, hin,
+            (by decide : ¬ ((2 : Nat) = 0)), (by decide : ¬ ((2 : Nat) = 1)),
+            Engine.createOp, Engine.enqueue, Engine.op?, lookup_mapInsert_self, Option.isNone_some]
+          exact ⟨trivial, trivial, trivial, rfl, fun id hid => lookup_mapInsert_ne _ _ _ _ hid⟩
+        · simp only [handleInbound, Engine.handlePublish, hs, Bool.false_eq_true, ↓reduceIte, h0, h1, h2, hin,
+            (by decide : ¬ ((2 : Nat) = 0)), (by decide : ¬ ((2 : Nat) = 1)),
+            Engine.createOp, Engine.enqueue, Engine.op?, lookup_mapInsert_self, Option.isNone_some]
+          exact ⟨trivial, trivial, trivial, rfl, fun id hid => lookup_mapInsert_ne _ _ _ _ hid⟩
+      · simp [h1, h2] at ha
+  | pubrel ak =>
+    simp only [inboundAnswer, Option.some.injEq] at ha
+    subst ha
+    simp only [handleInbound, Engine.handlePubrel, hs, Bool.false_eq_true, ↓reduceIte, Engine.createOp, Engine.enqueue,
+      Engine.op?, lookup_mapInsert_self, Option.isNone_some]
+    exact ⟨trivial, trivial, trivial, rfl, fun id hid => lookup_mapInsert_ne _ _ _ _ hid⟩
+  | _ => simp [inboundAnswer] at ha
+
+/-- **Acknowledgements leave in the order the packets they answer arrived** - for any run of inbound QoS 1 / QoS 2 publishes
+    and PUBRELs, of any length: the answers are new operations with consecutive numbers, they stand at the back of the
+    high-priority queue in arrival order behind whatever stood there, the k-th of them is the answer the k-th packet is owed
+    (PUBACK / PUBREC / PUBCOMP with its identifier), and the queue is served from its head (C10:
+    `dequeue_takes_heads_in_priority_order`). -/
+theorem answers_leave_in_arrival_order : ∀ (ps : List Packet) (e : Engine), stateBlocksAcks e.state = false →
+    (∀ p ∈ ps, (inboundAnswer p).isSome = true) →
+    let e' := ps.foldl (fun en p => (handleInbound en p).1) e
+    e'.highQ = e.highQ ++ (List.range ps.length).map (e.nextOpId + ·) ∧ e'.nextOpId = e.nextOpId + ps.length ∧
+    e'.state = e.state ∧
+    (∀ i (h : i < ps.length), (e'.op? (e.nextOpId + i)).map (·.packet) = inboundAnswer ps[i]) ∧
+    (∀ id, id < e.nextOpId → e'.op? id = e.op? id)
+  | [], e, _, _ => by
+    simp
+  | p :: ps, e, hs, hall => by
+    obtain ⟨a, ha⟩ := Option.isSome_iff_exists.mp (hall p (by simp))
+    have h1 := answer_joins_the_back e p a hs ha
+    simp only [] at h1
+    obtain ⟨q1, n1, s1, o1, k1⟩ := h1
+    have ih := answers_leave_in_arrival_order ps (handleInbound e p).1 (by rw [s1]; exact hs) (fun x hx => hall x (by simp [hx]))
+    simp only [] at ih
+    obtain ⟨q2, n2, s2, o2, k2⟩ := ih
+    simp only [List.foldl_cons, List.length_cons]
+    refine ⟨?_, ?_, ?_, ?_, ?_⟩
+    · rw [q2, q1, n1, List.append_assoc]
+      congr 1
+      rw [List.range_succ_eq_map]
+      simp only [List.map_cons, List.map_map, Nat.add_zero, List.singleton_append]
+      congr 1
+      apply List.map_congr_left
+      intro x _
+      simp only [Function.comp]
+      omega
+    · rw [n2, n1]; omega
+    · rw [s2, s1]
+    · intro i hi
+      cases i with
+      | zero =>
+        simp only [Nat.add_zero, List.getElem_cons_zero]
+        rw [k2 e.nextOpId (by rw [n1]; omega), o1, ha]
+      | succ j =>
+        simp only [List.getElem_cons_succ]
+        have := o2 j (by simpa using hi)
+        rw [n1] at this
+        rw [show e.nextOpId + (j + 1) = e.nextOpId + 1 + j by omega]
+        exact this
+    · intro id hid
+      rw [k2 id (by rw [n1]; omega), k1 id (by omega)]
+
+/-- non-vacuity: three packets, three answers, in order -/
+example :
+    let e : Engine := { (Engine.new {}) with state := .connected }
+    let e' := [Packet.publish { topic := [97], qos := 2, packetId := 5 }, Packet.pubrel { packetId := 9 },
+               Packet.publish { topic := [97], qos := 1, packetId := 6 }].foldl (fun en p => (handleInbound en p).1) e
+    (e'.highQ.map (fun id => (e'.op? id).map (·.packet))) =
+      [some (.pubrec { packetId := 5 }), some (.pubcomp { packetId := 9 }), some (.puback { packetId := 6 })] := by
+  decide
+
 end GV.Props.C05
